@@ -16,7 +16,9 @@ NAME_ATOMS = [b"main", b"a", b"vac\xc3\xa0tion", b'clever"script', b"back\\slash
 
 BODY_LINES = [b"", b"keep;", b"OK", b'NO "x"', b"BYE", b"{5}", b"{5+}", b'"quoted line"', b"# comment \xc3\xa9",
               b'require ["fileinto"];', b'if header :is "a" "b" { discard; }', b"OK \"Getscript completed.\"",
-              b"text:", b".", b"back\\slash", b'q"uote', b"  indented", b"ACTIVE", b"x" * 100]
+              b"text:", b".", b"back\\slash", b'q"uote', b"  indented", b"ACTIVE", b"x" * 100,
+              # characters that str.splitlines() (but not the protocol) treats as line boundaries stay inside a line
+              b"a\xe2\x80\xa8b", b"para\xe2\x80\xa9graph", b"nel\xc2\x85x", b"v\x0bt", b"f\x0cf", b"fs\x1cgs\x1drs\x1e."]
 
 
 def quotable(v):
